@@ -244,7 +244,15 @@ def check(model: Model, run: Run) -> None:
                 limit = (1 << (8 * w)) - 1
                 ub = bd.ub(a, st or c)
                 inst = '%s: %s as %d byte(s)' % (short(fi.qualname), norm(a)[:40], w)
-                if ub <= limit:
+                if ub is not INF and int(ub) == limit - 1 and isinstance(a, ast.Name):
+                    run.violation(
+                        fi.qualname,
+                        'the range guard stops one short of what the field holds: %s <= %d packed on %d byte(s)' % (norm(a)[:30], int(ub), w),
+                        fi.loc(c),
+                        'the dominating guard allows %s up to %d, the field written here holds up to %d: the largest value the RFC allows (all ones) is '
+                        'refused although it is encodable - an off-by-one between `<` and `<=` on a bound that changed from 2^n to 2^n - 1' % (norm(a)[:30], int(ub), limit),
+                    )
+                elif ub <= limit:
                     run.ok(inst, 'upper bound %s' % (int(ub) if ub is not INF else ub))
                 elif _protected(pm, c, exc):
                     run.ok(inst, 'struct.error converted to ValueError by the enclosing handler')
@@ -383,6 +391,47 @@ def check(model: Model, run: Run) -> None:
     from .C16 import and_flag_rule
 
     and_flag_rule(model, run)
+
+    # ------------------------------------------------------------------ R6 the family of the prefix is recorded for what follows
+    run.rule(
+        'C18.R6',
+        'a function that records the family of the prefix it parsed (tokeniser.afi, read later by `next-hop self` and by the flow '
+        'components) records it on every path that returns normally: an assignment that sits in a `try` after the statement that '
+        'can fail is skipped on the fall-back path, and `route 192.0.2.1 next-hop self` (a host route written without its mask) is '
+        'refused with "announce requires nexthop"',
+        floor=1,
+    )
+    from ..cfg import CFG as _CFG
+
+    n6 = 0
+    for fi in sorted(model.funcs.values(), key=lambda f: f.qualname):
+        if not fi.module.rel.startswith('exabgp/configuration/'):
+            continue
+        recs = [a for a in walk_no_nested(fi.node) if isinstance(a, ast.Assign) and any(isinstance(t, ast.Attribute) and t.attr == 'afi' and isinstance(t.value, ast.Name) and t.value.id in {p_.arg for p_ in fi.node.args.args} - {'self', 'cls'} for t in a.targets)]
+        if not recs:
+            continue
+        n6 += 1
+        run.analysed(fi)
+        cfg6 = _CFG(fi.node)
+        targets = {x.id for a in recs for x in cfg6.nodes_of(a)}
+        rets = {x.id for r in walk_no_nested(fi.node) if isinstance(r, ast.Return) for x in cfg6.nodes_of(r)}
+        # a normal return: reached without passing the recording
+        seen = {cfg6.entry.id}
+        work = [cfg6.entry.id]
+        miss = None
+        while work and miss is None:
+            i = work.pop()
+            for j, lab in cfg6.nodes[i].succ:
+                if j in seen or j in targets:
+                    continue
+                seen.add(j)
+                if j in rets or (j == cfg6.exit.id and lab != 'exc' and cfg6.nodes[i].kind not in ('raise',) and not isinstance(cfg6.nodes[i].ast, ast.Raise)):
+                    miss = j
+                    break
+                work.append(j)
+        run.check(miss is None, fi.qualname, 'the family is recorded on every path that returns', fi.loc(recs[0]), 'a path reaches the end of the function without passing `%s`' % norm(recs[0])[:50])
+    if n6 < 1:
+        run.cannot('no function recording tokeniser.afi found')
 
 
 # (function, operand) -> why the packed operand is in range although no guard shows it
